@@ -16,5 +16,18 @@ include!(concat!(env!("OUT_DIR"), "/client_bin.rs"));
 
 /// Run the real `main()` as the main thread of a simulated process.
 pub fn verif_main() {
-    main()
+    let code = verif_exit_status(main());
+    if code != 0 {
+        verif_std::process::exit(code);
+    }
+}
+
+fn verif_exit_status<T: std::process::Termination>(t: T) -> i32 {
+    let c = t.report();
+    if c == std::process::ExitCode::SUCCESS {
+        return 0;
+    }
+    let d = format!("{:?}", c);
+    let digits: String = d.chars().filter(|ch| ch.is_ascii_digit()).collect();
+    digits.parse().unwrap_or(1)
 }
